@@ -96,6 +96,14 @@ func renderStmts(ss []interface{}, ind string) string {
 			fmt.Fprintf(&b, "%sOPEN %s;\n%sWHILE %s%s IN %s DO\n%s%sEND WHILE;\n%sCLOSE %s;\n", ind, s["c"], ind, kw, s["x"], s["c"], renderStmts(s["body"].([]interface{}), ind+"  "), ind, ind, s["c"])
 		case "curuse":
 			fmt.Fprintf(&b, "%sOPEN %s;\n%sFETCH %s INTO %s;\n%sCLOSE %s;\n", ind, s["c"], ind, s["c"], s["x"], ind, s["c"])
+		case "curopen":
+			fmt.Fprintf(&b, "%sOPEN %s;\n", ind, s["c"])
+		case "curclose":
+			fmt.Fprintf(&b, "%sCLOSE %s;\n", ind, s["c"])
+		case "curfirst":
+			fmt.Fprintf(&b, "%sFETCH FIRST %s INTO %s;\n", ind, s["c"], s["x"])
+		case "curisopen":
+			fmt.Fprintf(&b, "%sPRINT CURSOR %s IS OPEN;\n", ind, s["c"])
 		case "curdispose":
 			fmt.Fprintf(&b, "%sDISPOSE CURSOR %s;\n", ind, s["c"])
 		case "tabdecl":
